@@ -152,3 +152,28 @@ def before_in(I, a, b, top=None):
     if idom is None:
         idom = I._idom = I.dominators()
     return I.g.dominates(idom, ga, gb)
+
+
+def every_path_to(I, gid, ok_at, depth=12):
+    """every taken normal path from the entry to node gid passes through a node satisfying ok_at(gid) (checked backwards over joins)"""
+    entry = I.g.entry.bmap[0]
+    seen = {}
+
+    def rec(g, d):
+        if g in seen:
+            return seen[g]
+        seen[g] = True      # cycles: assume ok (loops do not bypass)
+        if ok_at(g):
+            seen[g] = True
+            return True
+        if g == entry or d == 0:
+            seen[g] = False
+            return False
+        preds = [p for (p, k) in I.g.nodes[g].preds if k == "normal" and (p, g) in I.edges]
+        if not preds:
+            seen[g] = False
+            return False
+        r = all(rec(p, d - 1) for p in preds)
+        seen[g] = r
+        return r
+    return rec(gid, depth)
